@@ -5,7 +5,7 @@ set -e
 REPO=${1:-/repo}; OUT=${2:?out dir}; CFG=${3:-dev}
 HERE=$(cd "$(dirname "$0")" && pwd)
 DRV=$HERE/extractor/target/release/rws-facts
-if [ ! -x "$DRV" ]; then
+if [ ! -x "$DRV" ] || [ -n "$(find $HERE/extractor/src $HERE/extractor/Cargo.toml -newer "$DRV" 2>/dev/null)" ]; then
   (cd $HERE/extractor && CARGO_NET_OFFLINE=true cargo build --release --offline >&2)
 fi
 mkdir -p "$OUT"
